@@ -432,6 +432,14 @@ static STOP: AtomicBool = AtomicBool::new(false);
 /// Enumerates every case of every space on `cfg.workers` threads.
 pub fn run_spaces(cfg: &RunCfg, spaces: &[Space]) -> RunOut {
     let t0 = Instant::now();
+    if cfg.shard.is_none() {
+        // replay files of earlier runs would be mistaken for this run's
+        if let Ok(rd) = std::fs::read_dir(format!("{VERIF_DIR}/replays/{}", cfg.prop)) {
+            for e in rd.flatten() {
+                let _ = std::fs::remove_file(e.path());
+            }
+        }
+    }
     install_crash_handler(&cfg.prop, spaces);
     silence_panics();
     STOP.store(false, Ordering::SeqCst);
@@ -503,6 +511,10 @@ pub fn run_spaces(cfg: &RunCfg, spaces: &[Space]) -> RunOut {
         }
         sctx.samples.truncate(if spaces.len() > 8 { 1 } else { 3 });
         total.merge(sctx);
+        if total.fail_count > 8 {
+            // enough counterexamples: the run is a failure; the remaining spaces are not enumerated
+            STOP.store(true, Ordering::Relaxed);
+        }
         if STOP.load(Ordering::Relaxed) {
             break;
         }
@@ -664,6 +676,10 @@ pub fn finish(rep: &Report, out: RunOut) -> i32 {
     let mut known_lines: BTreeMap<String, (u64, String)> = BTreeMap::new();
     let mut n = 0;
     for f in &out.total.fails {
+        if n >= 12 && f.known.is_none() {
+            violations += 1;
+            continue;
+        }
         let listed = f.known.as_ref().and_then(|k| {
             known.iter().find(|e| e.get("property").and_then(Value::as_str) == Some(&rep.prop) && e.get("classifier").and_then(Value::as_str) == Some(k))
         });
